@@ -64,7 +64,7 @@ def solve_once(env, tag, overrides, script=None, solver=None, observers=None):
     S.Timer = spy
     kw = dict(env.kw)
     kw.update(penalty_update=P.PenaltyUpdate[env.pol], collect_path=False, time_limit=INF, display_interval=INF)
-    kw.update(overrides)
+    kw.update({k: v for k, v in overrides.items() if not k.startswith("_")})
     if solver is None:
         params = P.Params(**kw)
         solver = S.Solver(env.user, params)
@@ -124,7 +124,7 @@ def solve_once(env, tag, overrides, script=None, solver=None, observers=None):
         return it
 
     T.create_transformed_iterate = cti
-    if observers and observers.get("callbacks"):
+    if (observers and observers.get("callbacks")) or overrides.get("_record_callbacks"):
         CT = boot.mod("callbacks").CallbackType
         solver.callbacks.register(CT.ComputedStep, lambda it, nx, acc: run.cbs.append((it, nx, acc)))
     lg = logging.getLogger("gradflow")
@@ -227,10 +227,10 @@ def h_prefix(E, shape):
     mode = shape.get("mode", "iterations")
     if mode == "iterations":
         k = E.int("k", 0, K)
-        B = solve_once(env, "b", dict(iteration_limit=k), script=A.trials)
+        B = solve_once(env, "b", dict(iteration_limit=k, _record_callbacks=True), script=A.trials)
     else:
         tl = E.real("time_limit", lo=0, lo_strict=True)
-        B = solve_once(env, "b", dict(iteration_limit=K, time_limit=tl), script=A.trials)
+        B = solve_once(env, "b", dict(iteration_limit=K, time_limit=tl, _record_callbacks=True), script=A.trials)
     compare_runs(E, env, A, B, "C08.", full=False)
     if B.exc is not None or B.beyond:
         E.prove(A.exc is not None and len(B.trials) == len(A.trials), "C08.step_size_abort_only_where_the_reference_aborts")
@@ -273,6 +273,13 @@ def h_prefix(E, shape):
         E.prove(res.status == A.res.status or res.status in (Status.IterationLimit, Status.TimeLimit), "C08.full_length_run_same_status_or_limit")
     # no rejected or partial trial point leaks: the result is one of the accepted states
     E.prove(c is A.start or any(c is t["nxt"] and t["acc"] for t in A.trials[:nb]), "C08.no_rejected_point_in_result")
+    # ... also by the public account: the returned point is the start or the candidate of a step
+    # that was announced as accepted to the ComputedStep callbacks of the limited run
+    if len(B.cbs) == nb:
+        xs = items(res.x)
+        announced = [B.start] + [nx for (it, nx, acc) in B.cbs if acc]
+        E.prove(lor(*[common.eq_all(xs, items(a.x)[:n]) for a in announced]), "C08.result_is_an_announced_accepted_point")
+        E.prove(res.num_accepted_steps == sum(1 for (it, nx, acc) in B.cbs if acc), "C08.accepted_count_matches_announcements")
 
 
 def h_observe(E, shape):
